@@ -1,5 +1,6 @@
 """C09 — line numbers reported with tokens match the source (tokenizer level)."""
 from props import tokcommon as tc
+from props import tbcommon as tb
 
 PROP = "C09"
 ENGINE = "tok"
@@ -82,6 +83,19 @@ def gen_cases(tier, rng):
         if s:
             cases.append((tc.with_chunks(line, tc.singletons(s)), "single"))
             cases.append((tc.with_chunks(line, tc.random_partition(rng, s)), "chunked"))
+    # CR · run · LF around a chunk boundary in every bulk-read state (the fast path must not keep a stale pending-LF flag)
+    for line in tc.crlf_run_cover():
+        s = tc.fields(line)["chunks"][0]
+        for part in tc.partitions2(s)[1:-1]:
+            cases.append((tc.with_chunks(line, part), "chunked"))
+    # forwarding through the tree builder: at every sink call the line the sink was last told (set_current_line) must be
+    # the line of the token being processed (`tb txt … ln=1`: real tokenizer + tree builder + monitoring sink)
+    for d in DOCS + TREE_LINE_DOCS:
+        for b in BR[:4] if tier == "quick" else BR:
+            text = d.replace("{b}", b)
+            for chunks in ([text], tc.singletons(text)):
+                cases.append((tb.case_txt(chunks, tb.opts(s=1) + ",ln=1"), "tree-lines"))
+                cases.append((tb.case_txt(chunks, tb.opts(s=0, tx=1) + ",ln=1"), "tree-lines"))
     # prefix oracle on a subset (quadratic): short inputs
     pre_inputs = [l for l in inputs if len(tc.fields(l)["chunks"][0]) <= (14 if tier == "quick" else 40)]
     if tier == "quick":
@@ -93,7 +107,27 @@ def gen_cases(tier, rng):
     return cases
 
 
+TREE_LINE_DOCS = [
+    "<div{b}=a><script>x{b}</script>{b}<p>", "<!-- a{b} b --!>{b}<p>x", "<!DOCTYPE html{b}?>{b}<html>", "<p{b}a=1{b}a=2>{b}x</p{b}>",
+    "<table>{b}<tr{b}>x{b}<td>y", "<svg>{b}<![CDATA[a{b}b]]>{b}</svg>{b}z", "<a href='&amp{b}'>&#{b}x</a>", "</{b}>{b}<!{b}>x",
+    "<title>{b}a{b}</title>{b}<textarea>{b}{b}b</textarea>", "<b>{b}<p>{b}</b>{b}x",
+]
+
+
+def compare(line, impl, model):
+    if line.startswith("tb\t"):
+        return True      # the monitoring option is a harness feature; the tree builder model is tied by C02/C06
+    return impl == model
+
+
 def oracle(line, out):
+    if line.startswith("tb\t"):
+        if out is None or "@L=" not in out:
+            return "parser crashed or malformed output: %s" % (out or "")[:200]
+        why = out.rsplit("@L=", 1)[1]
+        if why != "-":
+            return "the sink was not told the line of the token being processed (set_current_line): %s" % why
+        return None
     p = tc.parse_out(out)
     if p is None:
         return "implementation crashed or malformed output: %s" % (out or "")[:200]
@@ -158,10 +192,8 @@ def oracle_all(cases, outs):
     return res
 
 
-def compare(line, a, b):
-    return a == b
-
-
 def nontrivial(line, out):
+    if line.startswith("tb\t"):
+        return out is not None and ("a " in line or "d " in line)
     s = "".join(tc.fields(line)["chunks"])
     return out is not None and ("\n" in s or "\r" in s)
